@@ -54,10 +54,10 @@ fn k_value_generic_mul() {
     assert!(r & mask == ((a as u64) * (b as u64)) & mask);
 }
 
+/// signed division: arbitrary garbage above the address size; address sizes 1 and 2 exhaustively (the reference is
+/// computed at 32 bits; gimli's own 64-bit divider is the cost for CBMC)
 #[kani::proof]
-fn k_value_generic_div_rem() {
-    // arbitrary garbage above the address size; address sizes 1 and 2 exhaustively (wider dividers are intractable for
-    // CBMC); the reference is computed at 32 bits
+fn k_value_generic_div() {
     let (a, b): (u64, u64) = (kani::any(), kani::any());
     let size = any_size();
     kani::assume(size <= 2);
@@ -72,12 +72,21 @@ fn k_value_generic_div_rem() {
         // signed, truncating towards zero
         assert!(eqm(generic(d), (sa / sb) as i128, bits));
     }
+}
+
+/// unsigned modulus: operands reduced to the address size first (bits above it must not matter)
+#[kani::proof]
+fn k_value_generic_rem() {
+    let (a, b): (u64, u64) = (kani::any(), kani::any());
+    let size = any_size();
+    kani::assume(size <= 2);
+    let (bits, mask) = (size * 8, mask_of(size));
+    let (va, vb) = (Value::Generic(a), Value::Generic(b));
     let r = va.rem(vb, mask);
     let (ua, ub) = (ux(a, bits) as u32, ux(b, bits) as u32);
     if ub == 0 {
         assert!(r == Err(Error::DivisionByZero));
     } else {
-        // unsigned modulus
         assert!(eqm(generic(r), (ua % ub) as i128, bits));
     }
 }
